@@ -78,7 +78,7 @@ def machine_spec(draw, profile="general", tier="quick"):
     tps = draw(st.sampled_from(TPS))
     pools = draw(st.sampled_from([1, 1, 2, 3] if profile != "multi_pool" else [2, 3, 4]))
     cpus = draw(st.sampled_from([1, 2, 4, 8, 16, 64]))
-    ram = draw(st.sampled_from([0.5, 2.3, 8, 12.34, 30, 64, 100, 256]))
+    ram = draw(st.sampled_from([0.5, 2.3, 8, 12.34, 30, 64, 100, 256, 100, 30, 64, 2e9, 1048576]))
     over = draw(st.booleans()) if profile != "oom" else True
     multi = draw(st.sampled_from([True, True, True, False])) if profile != "oom" else draw(st.booleans())
     if profile == "suspend":
@@ -503,6 +503,8 @@ class Episode:
                 expect = "either"
         # ---- execute
         before = [(p.avail_cpu_pool, p.avail_ram_pool, len(p.active_containers)) for p in self.ex.pools]
+        live_before = {c.container_id: [o.state().value for o in c.operators]
+                       for p in self.ex.pools for c in list(p.active_containers) + list(p.suspending_containers)}
         try:
             results = self.ex.run_one_tick(real_sus, real_asg)
             happened = "accept"
@@ -522,6 +524,13 @@ class Episode:
                 return
             self.stats["rejects"] += 1
             self.last_reasons = reasons
+            # a rejected round may not swallow outcomes: a container that was live before the call and is gone after it
+            # ended during the call, and its result went nowhere
+            live_after = {c.container_id for p in self.ex.pools for c in list(p.active_containers) + list(p.suspending_containers)}
+            done_after = {c.container_id for p in self.ex.pools for c in p.suspended_containers}
+            for cid_ in live_before:
+                if cid_ not in live_after and cid_ not in done_after:
+                    self.problem("C09:outcome-lost-in-rejected-round", f"{cid_} was live before the rejected round and is gone after it; no result was delivered")
             for tag, _ in reasons:
                 out.label("reject_" + tag)
             # an overselling batch leaves its pool untouched
